@@ -94,14 +94,14 @@ SPECS["C10"] = v2spec(
     title="the v2 API is total on arbitrary bytes",
     rule=("case = one hostile byte string (30 structure-aware generator kinds: empty, whitespace, NULs, every single byte value, invalid/overlong/truncated UTF-8, "
           "surrogates, BOM, long lines, many lines, hyphen/newline storms, entities, header/notice look-alikes, byte-flipped/spliced/repeated/shuffled licenses, buffer-edge runes ...) "
-          "x threshold in {0,1e-9,0.01,0.3,0.5,0.8,0.99,1.0} x corpus in {empty, empty docs, one-word docs, small synthetic, repetitive, embedded}; "
+          "x threshold in {0,1e-9,0.01,0.3,0.5,2/3,0.75,0.8,0.99,0.999999,1-1e-12,nextafter(1,0),1.0} x corpus in {empty, empty docs, one-word docs, small synthetic, repetitive, embedded}; "
           "Match, MatchFrom (fragmenting readers), Normalize and AddContent (+ matching against the hostile document) are called under recover() in a child "
           "process with a per-case watchdog. Refuted by panic / process death / double-confirmed hang. Inputs > 2.5KB are only used at thresholds >= 0.65 (cost model). "
           "Non-trivial = all calls returned; distinct = distinct input x threshold x corpus."),
     floor_evals={"quick": 5000, "thorough": 250000},
     floor_nontrivial={"quick": 2000, "thorough": 100000},
     timeout={"quick": 1800, "thorough": 5 * 3600},
-    case_timeout={"quick": 300, "thorough": 600},
+    case_timeout={"quick": 120, "thorough": 300},
     shards={"quick": 2, "thorough": 4}, workers={"quick": 8, "thorough": 4},
 )
 
